@@ -600,14 +600,17 @@ impl CaseRec {
 }
 
 /// One generated program: correspondence line + all oracles.
-fn one(out: &mut CaseRec, real: &mut Real, e: &E, style: u32, rng: &mut gv::rng::Rng, replaying: bool, meta: bool) {
+fn one(out: &mut CaseRec, real: &mut Real, e: &E, style: u32, rng: &mut gv::rng::Rng, replaying: bool, meta: bool, fam: Option<&str>) {
     let src = program(e, style);
     let v = real.check(&src);
     let first_err = real.last_err.clone();
     let mut known_poly_field = false;
     let w = refw::infer_program(e);
     let tag = feature_tag(e);
-    let replay = serde_json::json!({"program": src, "ast": sexp(e), "style": style});
+    let replay = serde_json::json!({"program": src, "ast": sexp(e), "style": style, "family": fam});
+    if let Some(pos) = fam {
+        out.count(&format!("family-if-lambda:{}", pos));
+    }
 
     // ---- oracle 1: completeness + principality against the independent algorithm W --------
     match (&w.result, &v) {
@@ -622,7 +625,11 @@ fn one(out: &mut CaseRec, real: &mut Real, e: &E, style: u32, rng: &mut gv::rng:
         (Some(pt), Verdict::Err) => {
             // With the row-tail defect a *principal* typing can also be lost only through the
             // row path; keep the fingerprint apart.
-            let fp = if first_err.contains("forall") {
+            let fp = if let Some(pos) = fam {
+                // member of the family "conditional of functions in inferred position": its own
+                // fingerprint, whatever the error text says (never folded into a known finding)
+                format!("rejects-typable:if-lambda:{}", pos)
+            } else if first_err.contains("forall") {
                 // a record field was generalised to `forall a . …` and then met a monomorphic type
                 known_poly_field = true;
                 "incomplete:forall-field-join".to_string()
@@ -643,7 +650,13 @@ fn one(out: &mut CaseRec, real: &mut Real, e: &E, style: u32, rng: &mut gv::rng:
             if a != b {
                 let more_general = refw::instance_of(&a, &b); // a = θ b : real is more general than principal
                 let less_general = refw::instance_of(&b, &a);
-                let fp = if refw::mentions(rt, "HigherRank") {
+                let fp = if let Some(pos) = fam {
+                    format!(
+                        "{}:if-lambda:{}",
+                        if less_general { "non-principal" } else if more_general { "too-general" } else { "wrong-type" },
+                        pos
+                    )
+                } else if refw::mentions(rt, "HigherRank") {
                     known_poly_field = true;
                     "higher-rank:forall-field".to_string()
                 } else if w.row_rewrite && more_general {
@@ -669,7 +682,13 @@ fn one(out: &mut CaseRec, real: &mut Real, e: &E, style: u32, rng: &mut gv::rng:
         (None, Verdict::Ok(rt)) => {
             // Not demanded by the statement in general (it speaks about typable programs), but a
             // type reported for an untypable program cannot be "its principal type".
-            let fp = if w.row_rewrite { "unlinked-row-tail:unify_rows".to_string() } else { format!("accepts-untypable:{}", tag) };
+            let fp = if let Some(pos) = fam {
+                format!("accepts-untypable:if-lambda:{}", pos)
+            } else if w.row_rewrite {
+                "unlinked-row-tail:unify_rows".to_string()
+            } else {
+                format!("accepts-untypable:{}", tag)
+            };
             out.oracle_fail(
                 &fp,
                 &format!("program without a typing is accepted with type {}", refw::gluon_type(rt)),
@@ -964,6 +983,74 @@ fn family() -> Vec<E> {
     out
 }
 
+/// Targeted family "conditional of functions in inferred position" (wave 2):
+/// `K[ if COND then L1 else L2 ]` where `L1`, `L2` range over a small set of function-valued
+/// expressions (literal lambdas — whose type the real checker generalises in place —, a let-bound
+/// identity, a lambda-bound variable), in BOTH orders, `K` over every position without an expected
+/// type (top, tuple component, record field, function position of an application, let right-hand
+/// side used at one / two types, array element), optionally under a lambda binder that the
+/// condition uses.  The join of the two branches must instantiate a generalised branch type
+/// (typecheck.rs:720-734 IfElse).  Returns (term, position tag).
+fn family_if() -> Vec<(E, &'static str)> {
+    let v = |s: &str| E::Var(s.to_string());
+    let bx = |e: E| Box::new(e);
+    let lam = |x: &str, b: E| E::Lam(x.to_string(), Box::new(b));
+    let app = |f: E, a: E| E::App(Box::new(f), Box::new(a));
+    let let_ = |x: &str, a: E, b: E| E::Let(x.to_string(), Box::new(a), Box::new(b));
+    // the function-valued expressions, with binder `x` (then-branch) or `w` (else-branch)
+    let funs = |x: &str| -> Vec<E> {
+        vec![
+            lam(x, v(x)),
+            lam(x, E::Lt(bx(v(x)), bx(E::Int(1)))),
+            lam(x, E::Tup(vec![v(x), E::Int(1)])),
+            lam(x, lam("y", v(x))),
+            lam(x, E::Int(0)),
+            v("i"), // let-bound identity (the whole term is wrapped in `let i = \z -> z in …`)
+            v("k"), // a variable bound by an enclosing lambda
+        ]
+    };
+    let mut out = vec![];
+    for under in [false, true] {
+        let cond = if under {
+            E::Lt(bx(v("c")), bx(E::Int(0)))
+        } else {
+            E::Lt(bx(E::Int(1)), bx(E::Int(2)))
+        };
+        for l1 in funs("x") {
+            for l2 in funs("w") {
+                let i = E::If(bx(cond.clone()), bx(l1.clone()), bx(l2.clone()));
+                let ctxs: Vec<(E, &'static str)> = vec![
+                    (i.clone(), "top"),
+                    (E::Tup(vec![i.clone(), E::Int(1)]), "tuple0"),
+                    (E::Tup(vec![E::Int(1), i.clone()]), "tuple1"),
+                    (E::Rec(vec![("f".into(), i.clone())]), "field"),
+                    (app(i.clone(), E::Int(1)), "app-fun"),
+                    (let_("g", i.clone(), v("g")), "let-rhs"),
+                    (
+                        let_("g", i.clone(), E::Tup(vec![app(v("g"), E::Int(1)), app(v("g"), E::Str("s".into()))])),
+                        "let-rhs-poly",
+                    ),
+                    (E::Arr(vec![i.clone()]), "array"),
+                    (E::Arr(vec![lam("u", v("u")), i.clone()]), "array-join"),
+                ];
+                for (mut e, pos) in ctxs {
+                    if free_in("k", &e) {
+                        e = lam("k", e);
+                    }
+                    if free_in("i", &e) {
+                        e = let_("i", lam("z", v("z")), e);
+                    }
+                    if under {
+                        e = lam("c", e);
+                    }
+                    out.push((e, pos));
+                }
+            }
+        }
+    }
+    out
+}
+
 fn corpus() -> Vec<E> {
     // hand-written regression shapes (let-polymorphism × rows nestings; the row-tail witnesses)
     let v = |s: &str| Box::new(E::Var(s.to_string()));
@@ -1037,7 +1124,8 @@ fn main2() {
             Some(e) => {
                 let mut rec = CaseRec::default();
                 let mut rng = gv::rng::Rng::new(args.seed, 1000);
-                one(&mut rec, &mut Real::new(), &e, style, &mut rng, true, true);
+                let famtag = case["family"].as_str().map(|s| s.to_string());
+                one(&mut rec, &mut Real::new(), &e, style, &mut rng, true, famtag.is_none(), famtag.as_deref());
                 for o in &rec.oracle {
                     println!("oracle: {} — {}", o["fingerprint"], o["what"]);
                 }
@@ -1050,15 +1138,21 @@ fn main2() {
     }
     // The whole case stream is a pure function of (tier, seed): the parent and every child
     // build the same list; a child processes an index range.
-    let mut cases: Vec<(E, u32, bool)> = vec![];
+    let mut cases: Vec<(E, u32, bool, Option<&'static str>)> = vec![];
     for e in corpus() {
-        cases.push((e, 0, true));
+        cases.push((e, 0, true, None));
     }
     // targeted family, exhaustive in both tiers (correspondence + algorithm-W oracle only)
     let fam = family();
     let n_fam = fam.len() as u64;
     for e in fam {
-        cases.push((e, 0, false));
+        cases.push((e, 0, false, None));
+    }
+    // targeted family "conditional of functions in inferred position", exhaustive in both tiers
+    let fam_if = family_if();
+    let n_fam_if = fam_if.len() as u64;
+    for (e, pos) in fam_if {
+        cases.push((e, 0, false, Some(pos)));
     }
     let max = if args.thorough() { 5 } else { 4 };
     let mut n_exh = 0u64;
@@ -1067,7 +1161,7 @@ fn main2() {
         enumerate(size, &mut vec![], &mut v);
         for e in v {
             n_exh += 1;
-            cases.push((e, (n_exh % 4) as u32, true));
+            cases.push((e, (n_exh % 4) as u32, true, None));
         }
     }
     let n_rand = if args.thorough() { 15000 } else { 2000 };
@@ -1081,7 +1175,7 @@ fn main2() {
             too_large += 1;
             continue;
         }
-        cases.push((e, style, true));
+        cases.push((e, style, true, None));
     }
     if let Some(p) = args.extra.iter().position(|a| a == "--child") {
         // child: process cases[lo..hi), one JSON line per case, `START i` before each
@@ -1099,7 +1193,7 @@ fn main2() {
             let mut rec = CaseRec::default();
             rec.idx = i as u64;
             let mut rng = gv::rng::Rng::new(args.seed, 1000 + i as u64);
-            one(&mut rec, &mut real, &cases[i].0, cases[i].1, &mut rng, false, cases[i].2);
+            one(&mut rec, &mut real, &cases[i].0, cases[i].1, &mut rng, false, cases[i].2, cases[i].3);
             let mut l = so.lock();
             writeln!(l, "CASE {}", rec.to_json()).unwrap();
             l.flush().unwrap();
@@ -1110,6 +1204,7 @@ fn main2() {
     out.stats.insert("exhaustive_up_to_size".into(), (max as u64).into());
     out.stats.insert("exhaustive_terms".into(), n_exh.into());
     out.stats.insert("family_generalisation_under_binder".into(), n_fam.into());
+    out.stats.insert("family_if_lambda_inferred_position".into(), n_fam_if.into());
     out.add("skipped:too-large", too_large);
     let seed_s = args.seed.to_string();
     let mut lo = 0usize;
@@ -1166,7 +1261,7 @@ fn main2() {
                     continue;
                 }
             }
-            let (e, style, _) = &cases[k.min(cases.len() - 1)];
+            let (e, style, _, _) = &cases[k.min(cases.len() - 1)];
             let src = program(e, *style);
             let w = refw::infer_program(e);
             out.count(&format!("checker-crash:{}", ex.class()));
